@@ -21,7 +21,7 @@ and all paths, never enumerates paths, never runs the code.
 import ast
 
 from .core import AnalysisError, unparse
-from .dataflow import Flow, chain, call_name, _walk_no_scopes
+from .dataflow import Flow, chain, call_name, _walk_no_scopes, order_splits
 from .poly import Poly, Con, le, lt, feasible, entails
 
 
@@ -29,9 +29,10 @@ class CurFlow(Flow):
     """sym() in 'current value' mode: variables are atoms named after
     themselves; composite atoms record which variables they depend on."""
 
-    def __init__(self, fn, inline_props=None, **kw):
-        self.inline_props = inline_props or {}
+    def __init__(self, fn, inline_props=None, inline_methods=None, **kw):
         self.atom_vars = {}
+        kw["inline_props"] = inline_props
+        kw["inline_methods"] = inline_methods
         a = fn.args
         self._params = set(x.arg for x in a.posonlyargs + a.args +
                            a.kwonlyargs)
@@ -77,6 +78,29 @@ class CurFlow(Flow):
 
     def _available(self, *a):
         return True
+
+    # -- None-ness as a 0/1 atom --------------------------------------------
+    def isnone(self, var):
+        name = "isnone(%s)" % var
+        self.atom_vars.setdefault(name, set()).add(var)
+        return Poly.atom(name)
+
+    def cond_constraints(self, cond, polarity, at):
+        if isinstance(cond, ast.Compare) and len(cond.ops) == 1 and \
+                isinstance(cond.ops[0], (ast.Is, ast.IsNot)) and \
+                isinstance(cond.comparators[0], ast.Constant) and \
+                cond.comparators[0].value is None:
+            c = chain(cond.left)
+            if c is not None:
+                c = self._alias_of(c)
+                is_none = polarity == isinstance(cond.ops[0], ast.Is)
+                a = self.isnone(c)
+                v = 1 if is_none else 0
+                return [le(a, v), le(v, a)]
+        return super(CurFlow, self).cond_constraints(cond, polarity, at)
+
+    def _alias_of(self, c):
+        return c
 
 
 def _depends(flow, atom, var):
@@ -184,13 +208,14 @@ class Interp(object):
                  pure_self_methods=(), pure_calls=(), integer=True,
                  nonneg=(), assume_asserts=True, ghost_params=True,
                  call_effects=None, max_rounds=12, consts=None,
-                 hypotheses=()):
+                 hypotheses=(), inline_methods=None):
         self.fn = fn
         # [(condition text, truth value)]: analyse only the executions on
         # which these conditions have these values (trace partition chosen by
         # the rule); contradicting branch edges are unreachable
         self.hypotheses = dict(hypotheses)
         self.flow = CurFlow(fn, inline_props=inline_props,
+                            inline_methods=inline_methods,
                             pure_self_methods=pure_self_methods,
                             pure_calls=pure_calls, consts=consts)
         self.cfg = self.flow.cfg
@@ -221,6 +246,14 @@ class Interp(object):
                     self.flow.sym(sub, self.cfg.entry)
                 except AnalysisError:
                     pass
+            # ... and the None-ness atoms of everything tested against None,
+            # so that assignments carry None-ness from the first pass on
+            if isinstance(sub, ast.Compare) and len(sub.ops) == 1 and \
+                    isinstance(sub.ops[0], (ast.Is, ast.IsNot)) and \
+                    isinstance(sub.comparators[0], ast.Constant) and \
+                    sub.comparators[0].value is None and \
+                    chain(sub.left) is not None:
+                self.flow.isnone(chain(sub.left))
         self._run()
 
     # -- helpers ---------------------------------------------------------------
@@ -320,6 +353,8 @@ class Interp(object):
                     self.hypotheses[txt] != n.polarity:
                 return None
             new = flow.cond_constraints(n.ast, n.polarity, n)
+            if not new:
+                new = self._disequality(cons, n)
             c = chain(n.ast)
             if c is not None and ("len(%s)" % c) in flow.atom_vars:
                 # truthiness of a sized object: non-empty / empty
@@ -375,12 +410,47 @@ class Interp(object):
                     for d2, _ in values if d2 is not d):
                 poly = None if not self._safe_parallel(d, poly, values) \
                     else poly
+            nul = None
+            if d.mode == "assign" and d.value is not None:
+                nul = self._nullness(d.value, n)
             if d.mode == "assign" and poly is not None and \
                     ("len(%s)" % d.var) in flow.atom_vars:
                 cons = self._assign_with_len(cons, d.var, poly)
             else:
                 cons = self._assign(cons, d.var, poly)
+            if nul is not None and ("isnone(%s)" % d.var) in flow.atom_vars:
+                a = flow.isnone(d.var)
+                cons = cons + [le(a, nul), le(nul, a)]
         return prune(cons, self.integer)
+
+    def _disequality(self, cons, n):
+        """``a != b`` is not convex; but when the state already orders the
+        two sides (a <= b or b <= a) it sharpens to a strict inequality."""
+        e, pol = n.ast, n.polarity
+        while isinstance(e, ast.UnaryOp) and isinstance(e.op, ast.Not):
+            e, pol = e.operand, not pol
+        if not (isinstance(e, ast.Compare) and len(e.ops) == 1):
+            return []
+        want = ast.NotEq if pol else ast.Eq
+        if not isinstance(e.ops[0], want):
+            return []
+        l, r = e.left, e.comparators[0]
+        if any(isinstance(x, ast.Constant) and (
+                isinstance(x.value, bool) or
+                not isinstance(x.value, int)) for x in (l, r)):
+            return []
+        try:
+            a = self.flow.sym(l, n)
+            b = self.flow.sym(r, n)
+        except AnalysisError:
+            return []
+        if not (self._numeric(a) and self._numeric(b)):
+            return []
+        if self.entails_state(cons, le(a, b)):
+            return [lt(a, b, "disequality")]
+        if self.entails_state(cons, le(b, a)):
+            return [lt(b, a, "disequality")]
+        return []
 
     def _assign_with_len(self, cons, var, poly):
         """var := <sequence-valued poly>: carry what is known about the
@@ -402,6 +472,26 @@ class Interp(object):
 
     def _safe_parallel(self, d, poly, values):
         return False
+
+    def _nullness(self, value, n):
+        """isnone() of the value assigned, as a Poly (0, 1 or the isnone atom
+        of the source variable), or None when unknown.  Evaluated in the
+        pre-state (the caller adds the constraint after the kill)."""
+        if isinstance(value, ast.Constant):
+            return Poly.const(1 if value.value is None else 0)
+        c = chain(value)
+        if c is not None:
+            if c in self.flow.inline_props:
+                return Poly.const(0)
+            return self.flow.isnone(c + "'pre") if False else \
+                self._pre_isnone(c)
+        if isinstance(value, (ast.BinOp, ast.UnaryOp, ast.Call, ast.Tuple,
+                              ast.List, ast.Dict, ast.Set, ast.Compare)):
+            return Poly.const(0)
+        return None
+
+    def _pre_isnone(self, c):
+        return self.flow.isnone(c)
 
     def _numeric(self, poly):
         for a in poly.atoms():
@@ -503,12 +593,15 @@ class Interp(object):
                                    [g.p for g in goals])
         prem = list(cons) + ax
         integer = self.integer
+        splits = order_splits(prem, splits, goals)
 
         def rec(i, acc):
             if not feasible(acc, integer):
                 return True
-            if i == len(splits) or i >= 10:
-                return entails(acc, goals, integer)
+            if entails(acc, goals, integer):
+                return True
+            if i == len(splits) or i >= 14:
+                return False
             for alt in splits[i]:
                 if not rec(i + 1, acc + alt):
                     return False
